@@ -311,7 +311,7 @@ func main() {
 	}
 	r.Require(req...)
 
-	n := r.N(300, 12000)
+	n := r.N(300, 6000)
 	if pf := os.Getenv("C37_CPUPROFILE"); pf != "" { // development aid
 		f, _ := os.Create(pf)
 		_ = pprof.StartCPUProfile(f)
